@@ -197,14 +197,16 @@ def run(ctx):
     ga = fx.body("clap_builder::parser::validator::gather_arg_direct_conflicts")
     for fld in ("blacklist", "overrides"):
         res.check(reads_field(ga, fld), "R3.4", "reads|Arg::" + fld, ga.where(), "direct conflicts include Arg::%s" % fld, "gather_arg_direct_conflicts no longer reads Arg::%s" % fld)
-    # group.conflicts unconditional, group.args under !multiple
+    # group.conflicts unconditional, group.args under !multiple — wherever the reads sit (loop body with an `if`, or a closure behind a `.filter(..)`)
     exts = ga.calls_to(r"Extend(<[^>]*>)?>?::extend$")
-    gconf = [c for c in exts if re.search(r"\.conflicts", expr(ga, c.args[1]))]
-    res.floor("R3.4", "extend with group.conflicts", len(gconf), 1)
-    for c in gconf:
-        gl = guard_strs(ga, c.bb)
-        res.check(not any(re.search(r"\.multiple", g) for g in gl), "R3.4", "group-conflicts-unconditional", c.where(), "group-level conflicts apply to members of every group",
-                  "a group's conflicts are only inherited by members of non-multiple groups (guard %s)" % [g for g in gl if "multiple" in g])
+    greads = [(t, i_) for t in tree(ga) for (i_, j_, s_) in t.stmts() if s_["k"] == "assign" and any(isinstance(p_, list) and any(str(el).startswith(".conflicts@") for el in p_[1:]) for p_ in ([s_["rv"].get("place")] + [op_place(o) for o in rv_operands(s_["rv"]) if isinstance(o, dict) and ("cp" in o or "mv" in o)]) if p_ is not None)]
+    greads += [(t, c.bb) for t in tree(ga) for c in t.calls() if any(re.search(r"\.conflicts\)?$", expr(t, a)) for a in c.args)]
+    res.check(bool(greads), "R3.4", "group-conflicts-read", ga.where(), "direct conflicts include ArgGroup::conflicts of the arg's groups", "gather_arg_direct_conflicts no longer reads ArgGroup::conflicts")
+    for t, bb_ in greads[:4]:
+        conds = enclosing_conditions(fx, t, bb_)
+        bad = [g for g in conds if re.search(r"\.multiple", g)]
+        res.check(not bad, "R3.4", "group-conflicts-unconditional", "%s bb%d" % (t.where(), bb_), "group-level conflicts apply to members of every group",
+                  "a group's conflicts are only inherited by members of non-multiple groups (condition %s)" % bad[:2])
     pushes = [c for c in ga.calls_to(r"Vec::push$") if re.search(r"\.args|member", expr(ga, c.args[1]))]
     # iterator form of the same step: conf.extend(group.args.iter().filter(other member).cloned())
     pushes += [c for c in exts if re.search(r"\.args\b", expr(ga, c.args[1])) and not re.search(r"\.conflicts", expr(ga, c.args[1]))]
